@@ -26,7 +26,7 @@ import common
 from common import ModelErr
 
 PROP = "C20"
-CLAIMED = False
+CLAIMED = True
 ENGINE = "Flax"
 DESIGN_REF = "DESIGN.md §5.13"
 TECHNIQUE = (
